@@ -82,16 +82,23 @@ Proof.
   - apply dead_same_refl.
 Qed.
 
+Lemma shed_after_dead t x : wacts (shed_after t x) = wacts x.
+Proof.
+  destruct x as [[p acts] out]. unfold shed_after.
+  destruct (w_dset p) as [[limit [|]]|]; try reflexivity.
+  destruct (shed_oldest _ t limit (w_queue p) out). reflexivity.
+Qed.
+
 Lemma enqueue_job_dead t x j : dead_same (wacts x) (wacts (enqueue_job t x j)).
 Proof.
   destruct x as [[p acts] out]. unfold enqueue_job.
   match goal with |- context [if ?b then _ else _] => destruct b end; [apply dead_same_refl|].
+  rewrite shed_after_dead.
   destruct (w_curr p).
   - destruct (next_non_expired t (w_queue p) (accept_ev j out)) as [[[o|] q'] out'].
     + apply (dispatch_job_dead (set_w_queue (q' ++ [clear_port j]) p, acts, out') o).
     + apply (dispatch_job_dead (set_w_queue q' p, acts, out') (clear_port j)).
-  - destruct (w_dset p) as [[limit [|]]|]; try apply dead_same_refl.
-    destruct (shed_oldest _ t limit (w_queue p ++ [clear_port j]) (accept_ev j out)). apply dead_same_refl.
+  - apply dead_same_refl.
 Qed.
 
 Lemma worker_complete_dead t x k : dead_same (wacts x) (wacts (worker_complete t x k)).
@@ -464,6 +471,22 @@ Proof.
   - unfold w_exit. destruct (lookup a (actors w)) as [x|] eqn:L; [|exact H].
     destruct (a_alive x) eqn:A; [|exact H]. destruct (a_stop x); [|exact H]. destruct (a_run x); [exact H|].
     apply actor_exit_T; [exact H|]. intros y Ly. congruence.
+  - (* external stop *)
+    assert (G : T (stop_actor a w)).
+    { unfold stop_actor. destruct (lookup a (actors w)) as [x|] eqn:L; [|exact H].
+      destruct (a_alive x) eqn:A; [|exact H].
+      pose proof (actor_rewrite_T w a x (mkA (a_wid x) true (a_mb x) (a_run x) true) (inbox_msg w) (inbox_sup w) H L A) as Q.
+      assert (Q' : T (set_inbox_sup (inbox_sup w) (set_inbox_msg (inbox_msg w) (set_actors (update a (mkA (a_wid x) true (a_mb x) (a_run x) true) (actors w)) w))))
+        by (apply Q; auto; simpl; discriminate).
+      destruct Q' as [T1 T2 T3]. constructor; simpl in *; auto. }
+    destruct G as [T1 T2 T3]. constructor; simpl in *; auto.
+  - unfold w_close. destruct (lookup a (actors w)) as [x|] eqn:L; [|exact H].
+    destruct (a_alive x) eqn:A; [|exact H]. destruct (a_stop x); [|exact H]. destruct (a_run x); [exact H|].
+    assert (G : T (actor_exit a (CStopExit a) w)) by (apply actor_exit_T; [exact H|]; intros y Ly; congruence).
+    destruct G as [T1 T2 T3]. constructor; simpl in *; auto.
+  - unfold w_closed. destruct (lookup a (actors w)) as [x|]; [|exact H].
+    destruct (memN a (closing w) && negb (a_alive x)); [|exact H].
+    destruct H as [T1 T2 T3]. constructor; simpl in *; auto.
   - (* finalize *)
     unfold finalize. destruct (fstatus w) eqn:F; try exact H.
     destruct (all_workers_gone w) eqn:G; [|exact H].
@@ -472,7 +495,7 @@ Proof.
     constructor; simpl; auto.
     intros _. repeat split.
     unfold all_dead. simpl. intros aid act I.
-    unfold all_workers_gone in G. rewrite forallb_forall in G.
+    unfold all_workers_gone in G. apply andb_prop in G. destruct G as [G _]. rewrite forallb_forall in G.
     specialize (G _ I). simpl in G. destruct (a_alive act); [discriminate|reflexivity].
 Qed.
 
